@@ -78,6 +78,10 @@ type Step struct {
 	Slack       bool   `json:"slack,omitempty"`       // sleep MetadataTTL x 3 + 2 s (the real-time clause of C12)
 	Release     int    `json:"release,omitempty"`     // release the held response of op <release> (or wire fault id -<n>)
 	CloseIdle   bool   `json:"closeIdle,omitempty"`
+	Bg          [][]Op `json:"bg,omitempty"`          // like par, but the script goes on while the goroutines run (see join)
+	Join        bool   `json:"join,omitempty"`        // wait for every goroutine started by bg
+	WaitArrived int    `json:"waitArrived,omitempty"` // wait until the request of op <n> reached a broker
+	CensusMs    int    `json:"censusMs,omitempty"`    // let things settle this long, then record which connections are still open
 }
 
 type TopicSpec struct {
